@@ -58,6 +58,10 @@ func runC13(c *Ctx) {
 			if pm, ok := req.Params.(map[string]interface{}); ok {
 				if args, ok := pm["arguments"].(map[string]interface{}); ok {
 					if n, ok := args["nonce"].(string); ok {
+						// per-request use of the session's data: written here, read by the handler
+						if se, ok := mcp.GetSessionFromContext(ctx); ok && se != nil {
+							se.SetData("token", tokenOf(ctx))
+						}
 						note("middleware-before", n, tokenOf(ctx))
 						s.Yield("mw")
 						res, err := next(ctx, req)
@@ -132,6 +136,12 @@ func runC13(c *Ctx) {
 		if se := mcp.ClientSessionFromContext(ctx); se != nil {
 			csid = se.GetID()
 		}
+		sessTok := "<none>"
+		if se, ok := mcp.GetSessionFromContext(ctx); ok && se != nil {
+			if v, ok := se.GetData("token"); ok {
+				sessTok, _ = v.(string)
+			}
+		}
 		srvOK := mcp.GetServerFromContext(ctx) == serverHandle
 		_, hasSender := mcp.GetNotificationSender(ctx)
 		toks := []string{}
@@ -140,8 +150,8 @@ func runC13(c *Ctx) {
 			toks = append(toks, v)
 		}
 		order, _ := ctx.Value(c13Key("order")).(string)
-		return &mcp.CallToolResult{Content: []mcp.Content{mcp.NewTextContent(fmt.Sprintf("tokens=%s;order=%s;sid=%s;csid=%s;server=%v;sender=%v",
-			strings.Join(toks, ","), order, sid, csid, srvOK, hasSender))}}, nil
+		return &mcp.CallToolResult{Content: []mcp.Content{mcp.NewTextContent(fmt.Sprintf("tokens=%s;order=%s;sid=%s;csid=%s;server=%v;sender=%v;sessiondata=%s;",
+			strings.Join(toks, ","), order, sid, csid, srvOK, hasSender, sessTok))}}, nil
 	})
 	for _, tok := range tokens {
 		name := "only-" + tok
@@ -199,10 +209,13 @@ func runC13(c *Ctx) {
 							s.Violate("C13|session-bleed|"+mode, "client %s has session %s, its handler saw %q", cl.Name, sid, got)
 						}
 					}
+					if !strings.Contains(got, ";sessiondata="+tok+";") {
+						s.Violate("C13|session-data-bleed|"+mode, "client with token %s: the handler read %q from its request's session data (written by the middleware of the same request)", tok, got)
+					}
 					if !strings.Contains(got, ";server=true;") {
 						s.Violate("C13|server-handle|"+mode, "handler did not see its server in the context: %q", got)
 					}
-					if mode != "legacy-sse" && !strings.Contains(got, ";sender=true") {
+					if mode != "legacy-sse" && !strings.Contains(got, ";sender=true;") {
 						s.Violate("C13|sender-missing|"+mode, "handler did not get a notification sender: %q", got)
 					}
 				case 1, 2, 3:
